@@ -47,7 +47,8 @@ def scenario(kind, res, lean_lines, meta):
     observers = []
     # "+u": the watched root's own name is not ASCII (its str and bytes spellings differ in length)
     full_kind = kind
-    kind, _, uni = kind.partition("+")
+    kind, _, flags = kind.partition("+")
+    uni, slash = "u" in flags, "s" in flags
     data = "d\u00e4ta-\u4e2d" if uni else "data"
     try:
         # the watched root is base/data ; with the relative spellings the process works from `base`
@@ -66,6 +67,9 @@ def scenario(kind, res, lean_lines, meta):
         else:
             os.chdir(base)
             arg, rootB = os.fsencode(data), os.fsencode(data)
+        if slash:
+            # the root spelled with a trailing separator: joined paths still have exactly one separator
+            arg = arg + (b"/" if isinstance(arg, bytes) else "/") if not isinstance(arg, pathlib.Path) else arg
         want_bytes = isinstance(arg, bytes)
         wk = "b" if want_bytes else ("p" if kind == "path" else "s")
         recs = {}
@@ -195,7 +199,7 @@ def run(res, tier, lean, proof_breaks=(), build_log=""):
                        "history (create, nested create, directory rename with synthetic events, deep change after a rename, move, "
                        "delete, rmtree) over plain / non-NFC / undecodable names, root given as str, bytes, pathlib.Path, relative "
                        "str and relative bytes, and a root whose own name is not ASCII (str, relative str, bytes); distinct = (root spelling, backend, relative name, event class)")
-    kinds = ["str", "bytes", "path", "relstr", "relbytes", "str+u", "relstr+u", "bytes+u"]
+    kinds = ["str", "bytes", "path", "relstr", "relbytes", "str+u", "relstr+u", "bytes+u", "bytes+s", "str+s", "relbytes+s"]
     lean_lines, meta = [], []
     for k in kinds:
         v = scenario(k, res, lean_lines, meta)
